@@ -11,6 +11,7 @@ import (
 	"io"
 	"os"
 	"sort"
+	"strconv"
 	"strings"
 	"syscall"
 
@@ -203,6 +204,15 @@ func cmdEmit(args []string) {
 			ev.Out = CPs(text)
 			if len(ev.Out) > 4000 {
 				ev.Out = ev.Out[:4000]
+			}
+			// a diagnostic may render a secret escaped (%q, %+q): the escaped form of a non-ASCII secret is searched as well
+			for _, sct := range append([][]int{}, ev.Secrets...) {
+				raw := FromCPs(sct)
+				q := strconv.QuoteToASCII(raw)
+				q = q[1 : len(q)-1]
+				if q != raw {
+					ev.Secrets = append(ev.Secrets, CPs(q))
+				}
 			}
 			// a short digits-only secret could coincide with a count or probability in a legitimate diagnostic: not searched
 			kept := ev.Secrets[:0]
